@@ -315,3 +315,24 @@ pub fn u_case_extra(x: u8, _y: u8) -> u32 { uni_case(if x & 1 == 0 { '€' } els
 pub fn u_euro(x: u8, y: u8) -> u32 { let c = if x & 1 == 0 { '€' } else { 'ˇ' }; uni_props(c) + (y as u32 & 1) * 1000 + (c.len_utf8() as u32) * 10000 + (c.is_ascii() as u32) * 100000 }
 pub fn u_array_by_value(x: u8, y: u8) -> u32 { let mut s = 0u32; for v in [x, y, 7] { s = s * 3 + v as u32; } for (i, k) in [Key::A, Key::Up].into_iter().enumerate() { if k as u8 == x { s += 1000 * (i as u32 + 1); } } s + [x, y].into_iter().rev().map(|v| v as u32).fold(0, |a, b| a * 2 + b) * 65536 }
 pub fn u_cell(x: u8, y: u8) -> u32 { use core::cell::Cell; struct R { reg: Cell<u16>, n: u8 } let r = R { reg: Cell::new(x as u16), n: 2 }; let rr = &r; rr.reg.set(rr.reg.get() << 1 | (y as u16 & 1)); let old = rr.reg.replace(7); old as u32 + r.reg.get() as u32 * 65536 + r.n as u32 * 0x100_0000 }
+
+// ---- sixth batch: string tables, functional style, more Option/iterator adaptors
+const ROW: &str = "qwertyuiop";
+const ROW_UP: &str = "QWERTYUIOP";
+const NATIONAL: &str = "äöüßé€";
+pub fn s_chars_nth(x: u8, y: u8) -> u32 { let r = if y & 1 == 0 { ROW } else { ROW_UP }; r.chars().nth((x & 15) as usize).map_or(0, |c| c as u32) }
+pub fn s_bytes_idx(x: u8, _y: u8) -> u32 { ROW.as_bytes().get((x & 15) as usize).map_or(0, |b| *b as u32) + ROW.bytes().nth((x & 7) as usize).map_or(0, |b| b as u32) * 256 + ROW.len() as u32 * 65536 }
+pub fn s_chars_national(x: u8, _y: u8) -> u32 { NATIONAL.chars().nth((x & 7) as usize).map_or(1, |c| c as u32) + NATIONAL.len() as u32 * 0x100_0000 + NATIONAL.chars().count() as u32 * 0x1000_0000 }
+pub fn s_chars_position(x: u8, _y: u8) -> u32 { ROW.chars().position(|c| c as u32 == x as u32).map_or(99, |i| i as u32) }
+pub fn s_char_indices(x: u8, _y: u8) -> u32 { let mut s = 0u32; for (i, c) in NATIONAL.char_indices() { if (c as u32 & 0xFF) as u8 > x { s += i as u32 + 1; } } s }
+pub fn s_zip_rows(x: u8, y: u8) -> u32 { ROW.chars().zip(ROW_UP.chars()).find(|(lo, _)| *lo as u32 == x as u32).map_or(0, |(lo, up)| if y & 1 == 0 { lo as u32 } else { up as u32 }) }
+pub fn s_contains_char(x: u8, _y: u8) -> u32 { (ROW.as_bytes().contains(&x) as u32) << 1 | (ROW.is_empty() as u32) << 3 | (ROW.chars().any(|c| c as u32 == x as u32) as u32) }
+pub fn s_eq_str(x: u8, _y: u8) -> u32 { let names = ["shift", "ctrl", "alt"]; let n = names[(x % 3) as usize]; (n == "ctrl") as u32 + (n.len() as u32) * 2 + (n != "alt") as u32 * 32 + match n { "shift" => 100, "alt" => 200, _ => 300 } }
+pub fn f_try_fold(x: u8, y: u8) -> u32 { let r: Option<u8> = [x, y, 3].iter().try_fold(0u8, |acc, v| acc.checked_add(*v)); r.map_or(9999, |v| v as u32) }
+pub fn f_chain_once(x: u8, y: u8) -> u32 { core::iter::once(x).chain([y, 5]).chain(core::iter::empty()).map(|v| v as u32).fold(0, |a, b| a * 7 + b) }
+pub fn f_filter_map(x: u8, _y: u8) -> u32 { TABLE.iter().filter_map(|v| v.checked_sub(x)).map(|v| v as u32).sum::<u32>() + TABLE.iter().flat_map(|v| [*v, 1]).count() as u32 * 1000 }
+pub fn f_min_max_by(x: u8, _y: u8) -> u32 { SORTED.iter().min_by_key(|(k, _)| k.abs_diff(x)).map_or(0, |(k, _)| *k as u32) + SORTED.iter().max_by(|a, b| (a.1 ^ x).cmp(&(b.1 ^ x))).map_or(0, |(_, v)| *v as u32) * 256 + TABLE.iter().copied().min().unwrap_or(0) as u32 * 65536 }
+pub fn f_opt_zip_then(x: u8, y: u8) -> u32 { let a = (x > 10).then_some(x); let b = (y > 10).then(|| y / 2); a.zip(b).map(|(p, q)| p as u32 * q as u32).or_else(|| a.map(u32::from)).unwrap_or(1) + a.and(b).is_some() as u32 * 0x10_0000 + a.filter(|v| v & 1 == 0).map_or(0, |_| 0x20_0000) + a.xor(b).map_or(0, |_| 0x40_0000) }
+pub fn f_step_rev_range(x: u8, y: u8) -> u32 { let mut s = 0u32; for i in (0..8u8).rev().step_by(2) { if (x >> i) & 1 == 1 { s += 1 << i; } } for i in (1..=3u8).map(|k| k * 2) { s += (y as u32 >> i) & 1; } s + (0..x & 7).map(|v| v as u32).sum::<u32>() * 1024 + (0..=y & 3).rev().fold(0u32, |a, b| a * 4 + b as u32) * 65536 }
+pub fn f_any_all_range(x: u8, y: u8) -> u32 { ((0..8).any(|i| (x >> i) & 3 == 3) as u32) | ((0..8).all(|i| (y >> i) & 1 == 0 || i < 4) as u32) << 1 | ((0..8u32).filter(|i| (x >> i) & 1 == 1).count() as u32) << 2 | ((0..8u8).position(|i| (y >> i) & 1 == 1).map_or(15, |p| p as u32)) << 8 | ((0..8u8).rev().find(|i| (y >> i) & 1 == 1).map_or(15, |p| p as u32)) << 12 }
+pub fn f_last_max_sum(x: u8, y: u8) -> u32 { let a = [x, y, x ^ y]; a.iter().max().map_or(0, |v| *v as u32) + a.iter().min().map_or(0, |v| *v as u32) * 256 + a.iter().map(|v| *v as u32).product::<u32>() % 251 * 65536 }
